@@ -28,11 +28,14 @@ ASSUMPTIONS = [
     'dict overwrite under conflicting sources is excluded by the quantifier (no device posed from two sources at one timestamp); '
     'under it the trajectories dict is the model\'s entry list up to order',
     'pose arithmetic is C05\'s (exact rationals in the model, floats in the implementation, compared at 1e-9)',
-    'recovery is proved for depth-1 rigs without master sensors (recover_remove_depth1_partial); nesting and masters are covered '
-    'by correspondence and oracle only',
+    'recovery theorems take the entry list in ANY listing order (the code sorts by (timestamp, device)); sparse recoveries '
+    '(some member poses missing) are covered by correspondence and oracle',
 ]
 TRUSTED = ['C05 pose model']
-PARTIAL = 'recovery half proved for depth 1 without masters; full statement kept as recover_remove_statement'
+PARTIAL = ('the recovery half is proved for any nesting depth, with and without master sensors, under explicit well-formedness '
+           'hypotheses (distinct rig ids, each device mounted once, no pose from two sources, one master per rig below a posed '
+           'device): recover_remove_nested / _masters / _exact; the hypothesis-free recover_remove_statement stays a definition '
+           '(for a rig mounted on an unposed parent the passes legitimately replace its entry by the parent\'s)')
 _cache = {}
 H, F = kgen.H, kgen.F
 
@@ -218,6 +221,15 @@ def run_real(case):
                 rec = T.rigs_recover(removed, rigs, masters)
                 res['args_unchanged'] = res['args_unchanged'] and dump(removed) == before and dump_rigs(rigs) == res['rigs_before']
             res['recovered'] = dump(rec)
+            if not case['inplace']:
+                # aliasing: whatever is done LATER to the object a non-in-place variant returned must not reach its argument
+                for ts in list(rec):
+                    rec[ts].clear()
+                res['args_unchanged'] = res['args_unchanged'] and dump(removed) == before
+        if not case['inplace']:
+            for ts in list(removed):
+                removed[ts].clear()
+            res['args_unchanged'] = res['args_unchanged'] and dump(traj) == res['traj_before'] and dump_rigs(rigs) == res['rigs_before']
         res['error'] = None
     except Exception as e:
         res['error'] = type(e).__name__ + ': ' + str(e)[:150]
